@@ -30,19 +30,34 @@ ok = meta["confirmed"]["demo_passes_without"] and meta["confirmed"]["patch_appli
     "passed" in meta["confirmed"]["tests_with_change"] and "failed" not in meta["confirmed"]["tests_with_change"] \
     and meta["confirmed"]["demo_fails_with"]
 meta["valid"] = ok
+scratch = os.environ.get("SEEDEVAL_SCRATCH") == "1"
 if ok:
-    assert sh("git -C /repo status --short").stdout.strip() == "", "repo dirty"
-    sh(f"git -C /repo apply {dst}/patch.diff")
+    if scratch:
+        # preliminary evaluation in a scratch worktree (the checks analyse it through VERIF_REPO)
+        # while /repo is busy; the recorded evaluation applies the patch to /repo itself
+        wt2 = f"/tmp/evalwt2_{sid}"
+        sh(f"git -C /repo worktree remove --force {wt2}")
+        sh(f"git -C /repo worktree add -q {wt2} HEAD")
+        sh(f"git -C {wt2} apply {dst}/patch.diff")
+        prefix = f"VERIF_REPO={wt2} "
+    else:
+        assert sh("git -C /repo status --short").stdout.strip() == "", "repo dirty"
+        sh(f"git -C /repo apply {dst}/patch.diff")
+        prefix = ""
+    meta["applied_to"] = "scratch worktree (VERIF_REPO)" if scratch else "/repo"
     try:
         for c in checks:
             t0 = time.time()
-            r = sh(f"cd /verif && ./check {c} --no-evidence")
+            r = sh(f"cd /verif && {prefix}./check {c} --no-evidence")
             lines = [l for l in r.stdout.split("\n") if l.startswith(("VIOLATION", "HARNESS-ERROR", "  counterexample"))]
             meta["ran"].append({"check": c, "exit": r.returncode, "violations": sum(l.startswith("VIOLATION") for l in lines),
                                 "first": lines[:3], "wall_s": round(time.time() - t0, 1),
                                 "summary": r.stdout.strip().split("\n")[-1][:300]})
     finally:
-        sh("git -C /repo checkout -- .")
+        if scratch:
+            sh(f"git -C /repo worktree remove --force {wt2}")
+        else:
+            sh("git -C /repo checkout -- .")
     meta["detected_by"] = [x["check"] for x in meta["ran"] if x["exit"] == 1]
     meta["harness_error_only"] = [x["check"] for x in meta["ran"] if x["exit"] == 2]
 notes = open(os.path.join(dst, "notes.md")).read()
